@@ -1,4 +1,6 @@
 // drv_decode: decoder-side monitors for C04, C05, C06, C17, C18 (ASan + UBSan flavour, hooks on).
+#define VF_FAILPOINT_IMPL
+#include "failpoint.h"
 #include "dec_c04.h"
 #include "dec_c05.h"
 #include "dec_c06.h"
@@ -35,7 +37,7 @@ static std::string firstDifference(const std::vector<std::string>& a, const std:
 }
 static void afterMainProbe();
 // (never destroyed: the atexit handler still reads it)
-static const std::vector<std::string>& gDecodedBeforeMain = *new std::vector<std::string>((lateReport(), atexit(afterMainProbe), decodeFixedSet()));
+static const std::vector<std::string>& gDecodedBeforeMain = *new std::vector<std::string>((lateReport(), atexit(afterMainProbe), probeInChild(decodeFixedSet)));
 static void afterMainProbe()
 {
     if (lateReport().prop != "C04" || lateReport().shard != 0)
@@ -47,7 +49,9 @@ static void afterMainProbe()
 static void outsideMainCase(Ctx& c)
 {
     auto now = decodeFixedSet();
-    std::string d = firstDifference(gDecodedBeforeMain, now);
+    std::string d = probeDied(gDecodedBeforeMain);
+    if (d.empty())
+        d = firstDifference(gDecodedBeforeMain, now);
     ++c.evaluations;
     c.count("frames_also_decoded_before_and_after_main", now.size());
     if (!d.empty())
